@@ -17,6 +17,7 @@ import (
 	"bufio"
 	"context"
 	"fmt"
+	"io"
 	"net"
 	"strings"
 
@@ -74,8 +75,21 @@ func (s *snmpService) Handle(_ context.Context, conn net.Conn) error {
 		return err
 	}
 	asnSize := 2 + int(hdr[1])
+	if hdr[1]&0x80 != 0 {
+		// long form: the low bits give the number of length bytes that follow
+		k := int(hdr[1] & 0x7f)
+		lenBytes, err := b.Peek(2 + k)
+		if err != nil {
+			return err
+		}
+		l := 0
+		for _, v := range lenBytes[2:] {
+			l = l<<8 | int(v)
+		}
+		asnSize = 2 + k + l
+	}
 	buf := make([]byte, asnSize)
-	n, err := b.Read(buf)
+	n, err := io.ReadFull(b, buf)
 	if err != nil {
 		return err
 	}
